@@ -10,6 +10,9 @@ use crate::world::{Outcome as O, Sealed, Unsealed, World};
 pub struct C08 {
     /// the restarted lineage, advanced in lock-step with the original
     shadow: Option<Unsealed>,
+    /// a second restarted lineage, rebuilt in a *cold store*: a fresh content-addressed store that holds nothing but the
+    /// three trees of the restart point, re-inserted from their iterated contents
+    cold: Option<Unsealed>,
     restart_header: Vec<u8>,
     restart_had_pending_tips: bool,
     restart_had_action: bool,
@@ -33,6 +36,7 @@ impl Monitor for C08 {
         // the original lineage was re-based at another height; the shadow lineage would have to be re-based the same
         // way to stay comparable - the comparison resumes at the next restart point instead
         self.shadow = None;
+        self.cold = None;
         Ok(())
     }
     fn on_restart(&mut self, w: &World, before: &Sealed, after: &Sealed, st: &mut Stats) -> Check {
@@ -57,35 +61,63 @@ impl Monitor for C08 {
             Ok(n) => self.shadow = Some(n),
             Err(p) => viol!("rebuilt-state-panics", "next_unsealed on the rebuilt state panicked: {}", p.message),
         }
+        // the same restart from a cold store
+        self.cold = None;
+        match catch(|| cold_rebuild(before)) {
+            Ok(Some(c)) => {
+                if c.header() != before.header() {
+                    viol!("rebuilt-header-differs-cold-store", "the state rebuilt from its block in a store holding only the block's three trees has another header (height {})", before.header().height);
+                }
+                match catch(|| c.next_unsealed()) {
+                    Ok(n) => {
+                        self.cold = Some(n);
+                        st.class("restart-point-also-from-cold-store");
+                    }
+                    Err(p) => viol!("rebuilt-state-panics-cold-store", "next_unsealed on the state rebuilt in a cold store panicked: {}", p.message),
+                }
+            }
+            Ok(None) => st.exclude("cold-store-roots-not-reproduced"),
+            Err(p) => viol!("rebuilt-state-panics-cold-store", "rebuilding the state in a cold store panicked: {}", p.message),
+        }
         Ok(())
     }
 
     fn on_batch(&mut self, w: &World, ob: &BatchObs, _st: &mut Stats) -> Check {
-        let sh = match self.shadow.as_mut() {
-            Some(s) => s,
-            None => return Ok(()),
-        };
-        let mut trial = sh.clone();
-        let pool = w.pool.clone();
+        if self.shadow.is_none() && self.cold.is_none() {
+            return Ok(());
+        }
         let txs = ob.txs;
-        let r = catch(|| pool.install(|| trial.apply_tx_batch(txs)));
-        let got = match r {
-            Ok(Ok(())) => {
-                *sh = trial;
-                "accepted".to_string()
-            }
-            Ok(Err(e)) => format!("rejected: {:?}", e),
-            Err(p) => format!("panicked: {}", p.message),
-        };
         let orig = match ob.outcome {
             O::Ok(()) => "accepted".to_string(),
             O::Rejected(e) => format!("rejected: {}", e),
             O::Panicked(p) => format!("panicked: {}", p.message),
         };
-        if got.split(':').next() != orig.split(':').next() {
-            viol!(self.sig("accept-reject-differs"), "a batch of {} transaction(s) is '{}' by the original lineage but '{}' by the restarted one", txs.len(), orig, got);
+        let mut any_accepted = false;
+        for which in 0..2 {
+            let sig = self.sig(if which == 0 { "accept-reject-differs" } else { "accept-reject-differs-cold-store" });
+            let sh = match if which == 0 { self.shadow.as_mut() } else { self.cold.as_mut() } {
+                Some(s) => s,
+                None => continue,
+            };
+            let mut trial = sh.clone();
+            let pool = w.pool.clone();
+            let r = catch(|| pool.install(|| trial.apply_tx_batch(txs)));
+            let got = match r {
+                Ok(Ok(())) => {
+                    *sh = trial;
+                    "accepted".to_string()
+                }
+                Ok(Err(e)) => format!("rejected: {:?}", e),
+                Err(p) => format!("panicked: {}", p.message),
+            };
+            if got.split(':').next() != orig.split(':').next() {
+                viol!(sig, "a batch of {} transaction(s) is '{}' by the original lineage but '{}' by the restarted one{}", txs.len(), orig, got, if which == 1 { " (cold store)" } else { "" });
+            }
+            if got == "accepted" {
+                any_accepted = true;
+            }
         }
-        if got == "accepted" && txs.iter().any(|t| t.inputs.iter().any(|i| self.coins_before_restart.contains(i))) {
+        if any_accepted && txs.iter().any(|t| t.inputs.iter().any(|i| self.coins_before_restart.contains(i))) {
             self.interesting_after = true;
         }
         for t in txs {
@@ -95,12 +127,16 @@ impl Monitor for C08 {
     }
 
     fn on_seal(&mut self, w: &World, ob: &SealObs, st: &mut Stats) -> Check {
-        let sh = match self.shadow.take() {
+        if self.shadow.is_none() && self.cold.is_none() {
+            return Ok(());
+        }
+        let action = ob.action;
+        for which in 0..2 {
+        let sh = match if which == 0 { self.shadow.take() } else { self.cold.take() } {
             Some(s) => s,
-            None => return Ok(()),
+            None => continue,
         };
         let pool = w.pool.clone();
-        let action = ob.action;
         let r = catch(|| {
             pool.install(|| {
                 let s = sh.seal(action);
@@ -141,7 +177,7 @@ impl Monitor for C08 {
                         fields.push("previous");
                     }
                     viol!(
-                        self.sig("headers-diverge"),
+                        self.sig(if which == 0 { "headers-diverge" } else { "headers-diverge-cold-store" }),
                         "block {} sealed by the original and by the restarted lineage differ in {:?} (restart point had action: {}, pending tips: {}; this block has action: {})",
                         want.height,
                         fields,
@@ -150,9 +186,14 @@ impl Monitor for C08 {
                         action.is_some()
                     );
                 }
-                self.shadow = Some(n);
+                if which == 0 {
+                    self.shadow = Some(n);
+                } else {
+                    self.cold = Some(n);
+                }
             }
             Err(p) => viol!(self.sig("restarted-lineage-panics"), "sealing on the restarted lineage panicked: {}", p.message),
+        }
         }
         if action.is_some() {
             self.interesting_after = true;
@@ -163,6 +204,23 @@ impl Monitor for C08 {
         }
         Ok(())
     }
+}
+
+/// The restart point rebuilt in a fresh store into which only the contents of its coin, history and pool trees were
+/// re-inserted (nothing else the running process may have left in the shared store). None if a root is not reproduced
+/// (that is C07's concern, counted here as excluded).
+fn cold_rebuild(s: &Sealed) -> Option<Sealed> {
+    let db = novasmt::Database::new(novasmt::InMemoryCas::default());
+    for t in [s.raw_coins_smt(), s.raw_history_smt(), s.raw_pools_smt()] {
+        let mut n = db.get_tree([0; 32])?;
+        for (k, v) in t.iter() {
+            n.insert(k, &v);
+        }
+        if n.root_hash() != t.root_hash() {
+            return None;
+        }
+    }
+    Some(Sealed::from_block(&s.to_block(), &s.raw_stakes(), &db))
 }
 
 pub fn profile() -> Profile {
@@ -221,7 +279,7 @@ pub fn run(ctx: &Ctx) -> (Outcome, String, Option<bool>) {
     );
     out.absorb(o);
     out.absorb(super::hist::run_sampled_heights(ctx, &profile(), ctx.scale(250, 2500), C08::default));
-    let rule = "Also: the first phase's kind of histories on mainnet/testnet (85%) started at a height sampled anywhere below 2 000 000 (TIP-906 barrier crossed honestly first). Generated histories with a stop/restart inserted after a sealed block at a generated position (with or without proposer action at the restart point, with or without tips left uncollected), plus further random restarts; after the restart the original lineage S and the rebuilt lineage from_block(S.to_block(), S.raw_stakes(), store) are driven in lock-step with the same transactions, batches and proposer actions. Oracle: the rebuilt state has the same header; every later batch gets the same accept/reject from both; every later sealed block has the same header from both (the differing fields are reported). Non-trivial = a restart followed by >=1 block with a proposer action or a spend of a coin that existed before the restart; distinct by (restart header, continuation transaction hashes). A second phase restarts right after a block in which a genuine TIP-910 mint (difficulty 14) raised the DOSC speed, and compares headers for further blocks.".to_string();
+    let rule = "Also: the first phase's kind of histories on mainnet/testnet (85%) started at a height sampled anywhere below 2 000 000 (TIP-906 barrier crossed honestly first). Generated histories with a stop/restart inserted after a sealed block at a generated position (with or without proposer action at the restart point, with or without tips left uncollected), plus further random restarts; after the restart the original lineage S and the rebuilt lineage from_block(S.to_block(), S.raw_stakes(), store) are driven in lock-step with the same transactions, batches and proposer actions. Oracle: the rebuilt state has the same header; every later batch gets the same accept/reject from both; every later sealed block has the same header from both (the differing fields are reported). A third lineage is rebuilt at every restart point in a cold store - a fresh content-addressed store into which only the contents of the restart point's coin, history and pool trees were re-inserted - and driven in lock-step as well (signatures ...-cold-store). Non-trivial = a restart followed by >=1 block with a proposer action or a spend of a coin that existed before the restart; distinct by (restart header, continuation transaction hashes). A second phase restarts right after a block in which a genuine TIP-910 mint (difficulty 14) raised the DOSC speed, and compares headers for further blocks.".to_string();
     (out, rule, None)
 }
 
